@@ -82,7 +82,7 @@ Loop(c, w, st, outs) ==
             LET r == ParseHeaderLine(c.pending.h, Slice(w, st + 1, p - 1)) IN
             IF r.res = "fatal" THEN Fail(c, outs, r.err)
             ELSE Loop([c EXCEPT !.pending.h = r.h], w, p + 1, outs)
-        ELSE IF st = 0 /\ n = BUF THEN Fail(c, outs, E_HSize(w))               \* line too long
+        ELSE IF st = 0 /\ n = BUF THEN Fail(c, outs, E_HSize(Lossy(w)))        \* line too long (the text is the lossy rendering of the window)
         ELSE Done([c EXCEPT !.buf = Slice(w, st + 1, n)], outs)
     [] c.ph = "BD" ->
         LET avail == n - st
